@@ -33,8 +33,10 @@ NOW = 3
 LOOSE = NOW + 16
 
 CFG = {
-    "quick": dict(n_inst=32, chunks=8, pool_cap=100, pool_time=2, plan_cap=150, max_product=2500, tlc_timeout=300),
-    "thorough": dict(n_inst=600, chunks=12, pool_cap=1000, pool_time=8, plan_cap=3000, max_product=20000, tlc_timeout=3000),
+    "quick": dict(n_inst=32, chunks=8, pool_cap=100, pool_time=2, plan_cap=150, max_product=2500, tlc_timeout=300,
+                  judge_batch=100000, agree_small=0),
+    "thorough": dict(n_inst=600, chunks=12, pool_cap=300, pool_time=4, plan_cap=2000, max_product=20000, tlc_timeout=3000,
+                     judge_batch=4000, agree_small=600),
 }
 
 
@@ -222,7 +224,10 @@ def absorb(res, outs, recs_offset=0):
 
 
 def key_of(inst, what):
-    return f"{inst['name']}|{what}"
+    """policy + circumstance (how the graph is offered / state of the parents) + clause; the exact
+    instance (shape, workers, strategies) is in the violation's `what` and detail"""
+    policy, _shape, mode = inst["name"].split("/")[:3]
+    return f"{policy}/{mode}|{what}"
 
 
 def run(tier: str) -> CheckResult:
@@ -241,10 +246,12 @@ def run(tier: str) -> CheckResult:
     t_jobs = time.time() - t0
     recs = absorb(res, outs)
     t0 = time.time()
-    fails, stats, tr = cc.judge_records(recs, timeout=3000)
+    fails, stats, truns = cc.judge_parallel(recs, batch=cfg["judge_batch"], procs=cfg["chunks"])
     t_judge = time.time() - t0
-    if tr is not None:
-        res.add_tlc("PlanRules/RecChecked", tr)
+    for tr in truns:
+        res.states += tr["distinct"]
+        res.transitions += tr["generated"]
+    res.extra["tlc_record_runs"] = truns
     res.traces_validated = len(recs)
     byid = {r["id"]: r for r in recs}
     counters, notes = {}, []
